@@ -9,12 +9,8 @@ Open Scope Z_scope.
 Lemma src_parse_compact_size_eq : forall d, wf_bytes d ->
   src_parse_compact_size d = of_option (pairZ (parse_compact_size d)).
 Proof.
-  intros d Hd. unfold src_parse_compact_size. rewrite py_index_0.
+  intros d Hd. unfold src_parse_compact_size. cbv beta iota zeta. eval_closed. rewrite !py_index_0.
   destruct d as [|b t]; [reflexivity|].
   assert (Hb : 0 <= b < 256) by (inversion Hd; assumption).
-  unfold parse_compact_size.
-  rewrite !py_slice_tail' by lia. eval_to_nat.
-  rewrite !unpack_eq.
-  split_ifs; try lia;
-    repeat match goal with |- context [unpack_le ?k t] => destruct (unpack_le k t) end; reflexivity.
+  unfold parse_compact_size. decode_first_byte b Hb.
 Qed.
